@@ -51,7 +51,7 @@ def spell_partition(draw, assign, explicit=False, form=None):
 
 @st.composite
 def valid_spec(draw, sm, want_mc=None, want_mixed=None, explicit=False, req_form=None,
-               shadow=False):
+               shadow=False, prov_sem=None):
     table = gen_shell.port_table(sm)
     prov = [p['name'] for p in table if p['dir'] == 'provides']
     req = [p['name'] for p in table if p['dir'] == 'requires' and not p['injected']]
@@ -70,7 +70,7 @@ def valid_spec(draw, sm, want_mc=None, want_mixed=None, explicit=False, req_form
         port, claim, enum, release = draw(st.sampled_from(cands))
         grant = draw(st.sampled_from(enum['elem']['fields']))
         mc = {'port': port, 'claim': claim['name'], 'grant': [grant], 'release': release['name']}
-    psem = 'MTS' if use_mc else draw(st.sampled_from(['STS', 'MTS']))
+    psem = 'MTS' if use_mc else (prov_sem or draw(st.sampled_from(['STS', 'MTS'])))
     psts, pmts = spell_uniform(draw, psem, prov, explicit)
     if isinstance(want_mixed, str) and len(req) >= 2:
         # an explicit pattern, applied cyclically in declaration order (e.g. 'MSM')
@@ -141,13 +141,13 @@ def _scope_elems(sm):
 
 @st.composite
 def model_and_spec(draw, force=None, want_mc=None, want_mixed=None, collide=False,
-                   explicit=False, req_form=None, shadow=False):
+                   explicit=False, req_form=None, shadow=False, prov_sem=None):
     feats = list(force or [])
     if want_mc:
         feats.append('mc_ready')
     sm = draw(gen_shell.shell_model(force=feats, collide=collide))
     vs = draw(valid_spec(sm, want_mc=want_mc, want_mixed=want_mixed, explicit=explicit,
-                         req_form=req_form, shadow=shadow))
+                         req_form=req_form, shadow=shadow, prov_sem=prov_sem))
     return {'sm': sm, 'spec': vs['spec'], 'semantics': vs['semantics']}
 
 
